@@ -88,6 +88,15 @@ def install(eng):
     M(r'^std::option::Option::<.*>::unwrap_or_default$', lambda e, st, fr, f, a, m: BE(st, a[0], lambda s: one(s, a[0].items[0]), lambda s: one(s, fconst(0)) if 'f64' in f else (_ for _ in ()).throw(Inconclusive('unwrap_or_default of ' + f[:80]))))
     # ---------------- iterators ----------------
     def need_iter(x):
+        if isinstance(x, Enum) and x.tag == 'Option':      # Option<T> is IntoIterator: zero or one element
+            from .models_std import _deq
+            if not isz(x.disc): return IterV([(True, x.items[0])] if x.disc == 1 else [], 'val')
+            return IterV([(_deq(x.disc, 1), x.items[0] if x.items else None)], 'val')
+        if isinstance(x, VecV): return IterV(list(x.ents), 'val')
+        if type(x) is Agg: return IterV([(True, y) for y in x.items], 'val')        # [T; N] is IntoIterator
+        if hasattr(x, 'd') and hasattr(x, 'r'): return IterV([(True, x.at(i, j)) for j in range(x.c) for i in range(x.r)], 'val')      # nalgebra matrix by value: column-major
+        return _need_iter(x)
+    def _need_iter(x):
         if isinstance(x, RangeV) and not isz(x.items[0]) and not isz(x.items[1]): return IterV([(True, i) for i in range(x.items[0], x.items[1])], 'val')
         if not isinstance(x, IterV): raise Inconclusive('iterator adaptor on ' + type(x).__name__)
         return x
@@ -98,14 +107,17 @@ def install(eng):
     M(r'^<.* as std::iter::Iterator>::take$', lambda e, st, fr, f, a, m: one(st, IterV(list(dense(need_iter(a[0])).ents[:conc(a[1])]), need_iter(a[0]).kind)))
     M(r'^<.* as std::iter::Iterator>::step_by$', lambda e, st, fr, f, a, m: one(st, IterV(list(dense(need_iter(a[0])).ents[::conc(a[1])]), need_iter(a[0]).kind)))
     M(r'^<.* as std::iter::(Iterator|DoubleEndedIterator)>::rev$', lambda e, st, fr, f, a, m: one(st, IterV(list(need_iter(a[0]).ents[::-1]), need_iter(a[0]).kind)))
-    M(r'^<.* as std::iter::Iterator>::chain', lambda e, st, fr, f, a, m: one(st, IterV(list(need_iter(a[0]).ents) + list(need_iter(a[1]).ents if not isinstance(a[1], VecV) else a[1].ents), 'val')))
+    M(r'^<.* as std::iter::Iterator>::chain', lambda e, st, fr, f, a, m: one(st, IterV(list(need_iter(a[0]).ents) + list(need_iter(a[1]).ents), 'val')))
     M(r'^<.* as std::iter::Iterator>::count$', lambda e, st, fr, f, a, m: one(st, len(dense(need_iter(D(st, a[0]) if isinstance(a[0], RefV) else a[0])).ents)))
     def it_last(e, st, fr, f, a, m):
         it = dense(need_iter(a[0])); return one(st, Some(it.ents[-1][1]) if it.ents else NONE())
     M(r'^<.* as std::iter::Iterator>::last$', it_last)
     def it_find(e, st, fr, f, a, m):
         r = a[0]; it = need_iter(D(st, r) if isinstance(r, RefV) else r); clo = a[1]; outs = []; cur = st
+        endless = getattr(it, 'endless', False)
         for k, (g, x) in enumerate(dense(it).ents):
+            if endless and k > e.K:
+                e.add_obligation('unwind', cur.pcz(), f'loop bound K={e.K} (search in an endless generator)', cur.frames[fr].body.name); return outs
             cur, hit = e.call1(cur, fr, clo, [e.tmp_ref(cur, fr, x)])
             if isz(hit):
                 s1 = cur.clone(); s1.assume(hit); outs.append((s1, Some(x))); cur = cur.clone(); cur.assume(z3.Not(hit))
@@ -213,7 +225,9 @@ def install(eng):
             if cur.disc != 1: return one(st, IterV(out, 'val'))
             x = cur.items[0]; out.append((True, x))
             st, cur = e.call1(st, fr, clo, [e.tmp_ref(st, fr, x)])
-        raise Inconclusive('successors: more than 64 elements')
+        # an endless generator: consumers that stop by themselves (find, take, position, any) work on the prefix, bounded by the unwinding bound
+        lz = IterV(out, 'val'); lz.endless = True
+        return one(st, lz)
     M(r'^std::iter::successors', successors)
     def flat_map(e, st, fr, f, a, m):
         it, clo = need_iter(a[0]), a[1]; out = []
@@ -275,6 +289,56 @@ def install(eng):
         return one(st, acc)
     M(r'core::slice::<impl \[.*\]>::contains$|^std::vec::Vec::<.*>::contains$', contains)
     M(r'^std::iter::once', lambda e, st, fr, f, a, m: one(st, IterV([(True, a[0])], 'val')))
+    def find_map(e, st, fr, f, a, m):
+        r = a[0]; it = need_iter(D(st, r) if isinstance(r, RefV) else r); clo = a[1]; outs = []; cur = st
+        for g, x in dense(it).ents:
+            nxt = None
+            for s1, o in e.call_closure(cur, fr, clo, [x]):
+                if isz(o.disc):
+                    sa = s1.clone(); sa.assume(zi(o.disc) == 1); outs.append((sa, Some(o.items[0])))
+                    sb = s1.clone(); sb.assume(zi(o.disc) != 1); nxt = sb
+                elif o.disc == 1: outs.append((s1, Some(o.items[0])))
+                else: nxt = s1
+            if nxt is None: return outs
+            cur = nxt
+        outs.append((cur, NONE())); return outs
+    M(r'^<.* as std::iter::Iterator>::find_map$', find_map)
+    def opt_zip(e, st, fr, f, a, m):
+        x, y = a
+        if not isz(x.disc) and not isz(y.disc): return one(st, Some(Agg([x.items[0], y.items[0]])) if x.disc == 1 and y.disc == 1 else NONE())
+        if (not isz(x.disc) and x.disc != 1) or (not isz(y.disc) and y.disc != 1): return one(st, NONE())
+        return one(st, Enum(z3.If(z3.And(zi(x.disc) == 1, zi(y.disc) == 1), 1, 0), [Agg([x.items[0], y.items[0]])], 'Option'))
+    M(r'^std::option::Option::<.*>::zip$', opt_zip)
+    def res_or_else(e, st, fr, f, a, m):
+        o, clo = a
+        return BE(st, o, lambda s: one(s, o), lambda s: e.call_closure(s, fr, clo, [o.items[0]]), 0)
+    M(r'^std::result::Result::<.*>::or_else$', res_or_else)
+    M(r'^std::result::Result::<.*>::ok_or$|^std::option::Option::<.*>::ok_or$', lambda e, st, fr, f, a, m: BE(st, a[0], lambda s: one(s, Ok(a[0].items[0])), lambda s: one(s, Err(a[1]))))
+    def range_map_symbolic(e, st, fr, f, a, m):
+        # (lo..hi).map(f) with a symbolic bound: one state per length 0..K (the engine's unwinding bound), an unwinding obligation beyond
+        rg, clo = a
+        if not isinstance(rg, RangeV) or rg.tag != 'Range' or not (isz(rg.items[0]) or isz(rg.items[1])): return NotImplemented
+        lo, hi = zi(rg.items[0]), zi(rg.items[1]); outs = []
+        for n in range(e.K + 1):
+            s0 = st.clone(); s0.assume((hi - lo <= 0) if n == 0 else (hi - lo == n)); ents = []
+            cur = [(s0, [])]
+            for k in range(n):
+                nxt = []
+                for s1, acc in cur:
+                    x = z3.simplify(lo + k); x = x.as_long() if z3.is_int_value(x) else x
+                    for s2, v in e.call_closure(s1, fr, clo, [x]): nxt.append((s2, acc + [(True, v)]))
+                cur = nxt
+            outs += [(s1, IterV(acc, 'val')) for s1, acc in cur]
+        e.add_obligation('unwind', z3.And(st.pcz(), hi - lo > e.K), f'loop bound K={e.K} (symbolic range in map)', st.frames[fr].body.name)
+        return outs
+    M(r'^<std::ops::Range<\w+> as std::iter::Iterator>::map$', range_map_symbolic)
+    def inspect(e, st, fr, f, a, m):
+        # Option::inspect / Result::inspect / Result::inspect_err: run the closure on a reference to the payload of the matching variant, return the value unchanged
+        o, clo = a; is_err = f.split('::<')[0].endswith('inspect_err') or 'inspect_err' in f
+        want = (1 if o.tag == 'Option' else 0) if not is_err else 1
+        def hit(s): return [(s2, o) for s2, _v in e.call_closure(s, fr, clo, [e.tmp_ref(s, fr, o.items[0])])]
+        return BE(st, o, hit, lambda s: one(s, o), want)
+    M(r'^std::(option::Option|result::Result)::<.*>::(inspect|inspect_err)$', inspect)
     def then_some(e, st, fr, f, a, m):
         b, v = a
         if not isz(b): return one(st, Some(v) if b else NONE())
@@ -286,5 +350,6 @@ def install(eng):
         s1 = st.clone(); s1.assume(zb(b)); s2 = st.clone(); s2.assume(z3.Not(zb(b)))
         return [(s3, Some(v)) for s3, v in e.call_closure(s1, fr, clo, [])] + [(s2, NONE())]
     M(r'core::bool::<impl bool>::then$', then)
+    M(r'^std::vec::Vec::<.*>::(as_slice|as_mut_slice)$', lambda e, st, fr, f, a, m: one(st, a[0]))
     M(r'^std::time::Instant::now$', lambda e, st, fr, f, a, m: one(st, Opaque('instant')))
     M(r'^std::time::Instant::elapsed$', lambda e, st, fr, f, a, m: one(st, Opaque('duration')))
